@@ -328,8 +328,10 @@ class Check:
         }
         if m.inconclusive:
             ev["coverage"]["inconclusive_reasons"] = m.inconclusive[:10]
-        evdir = VERIF / "evidence"
-        evdir.mkdir(exist_ok=True)
+        # self-tests against mutated scratch copies redirect their evidence so that the committed
+        # evidence always comes from a run against /repo itself
+        evdir = Path(os.environ["VERIF_EVIDENCE_DIR"]) if os.environ.get("VERIF_EVIDENCE_DIR") else VERIF / "evidence"
+        evdir.mkdir(parents=True, exist_ok=True)
         (evdir / f"{self.pid}.json").write_text(json.dumps(ev, indent=1, default=repr) + "\n")
 
         for sig, n in sorted(known_hit.items()):
@@ -337,8 +339,8 @@ class Check:
             print(f"KNOWN-FINDING: property={self.pid} {sig}: {f['description']} (observed {n}x)")
         rc = EXIT_HELD
         if unknown:
-            rdir = VERIF / "replay"
-            rdir.mkdir(exist_ok=True)
+            rdir = Path(os.environ["VERIF_REPLAY_DIR"]) if os.environ.get("VERIF_REPLAY_DIR") else VERIF / "replay"
+            rdir.mkdir(parents=True, exist_ok=True)
             seen = set()
             for v in unknown:
                 if v["sig"] in seen:
